@@ -90,6 +90,8 @@ def execute(prop, ops=None, seed=None, idx=None, tier="quick", cfg=None, enabled
         signal.signal(signal.SIGALRM, old)
     if sess is not None:
         res["violations"] = sess.violations + sess.other_alarms
+        if getattr(w, "file_built", 0):
+            sess.stats["file_built_components"] += w.file_built
         res["stats"] = dict(sess.stats)
         res["steps"] = sess.step + 1
         res["outcomes"] = sess.outcomes
